@@ -8,16 +8,16 @@ LEVEL_TEXT = {
  'C01': ('exploration', 'Generated MON/LOCK programs on the deterministic simulator: every acquisition path (lock, rlock, try*, cv / mu / wait_n re-acquisition, deadline and cancel races) is checked against a harness shadow of who holds the mutex and against the AnnotateRWLock* observation points inside the library. Exploration of sampled schedules, not a proof.', '6.1'),
  'C02': ('exploration', 'Exact deadlock / livelock verdicts of the simulator on generated LOCK and MON programs (incl. FREEZE schedules that take away every rescuer): a thread asleep in lock/rlock while the mutex is free is a violation; try-locks may not reach a blocking primitive.', '6.2'),
  'C03': ('exploration', 'Vector-clock happens-before race detector over client data and every non-atomic nsync field, crediting only the memory order each atomic call site declares (all three atomic.h flavours), on generated programs of the MON, LOCK, ONCE, NOTE, CTR and WAITN families.', '6.3'),
- 'C04': ('exploration', 'Mark/snapshot accounting of which waiters a wake-up definitely covers, evaluated at quiescence on generated monitor programs with deadlines and cancellations racing the wake-up.', '6.4'),
+ 'C04': ('exploration', 'Mark/snapshot accounting of which waiters a wake-up definitely covers, evaluated at quiescence on generated monitor programs with deadlines and cancellations racing the wake-up (2 of 16 quick shards on the C++ build, deadlines through the time_point overloads).', '6.4'),
  'C05': ('exploration', 'Assertions on every return of a timed / cancellable wait (mode, clock, note model, condition value) plus exact detection of a wait that keeps sleeping after its deadline or cancellation.', '6.5'),
- 'C06': ('exploration', 'At quiescence no nsync_mu_wait caller may sleep with a true condition; inside every condition callback no other thread may be inside a write critical section.', '6.6'),
+ 'C06': ('exploration', 'At quiescence no nsync_mu_wait caller may sleep with a true condition; inside every condition callback no other thread may be inside a write critical section. One generated program in four is built around the MU_ALL_FALSE hint (a writer that makes a condition true and then blocks, or unlocks while a debug-state caller toggles the spinlock, followed by a reader / unlock_without_wakeup release).', '6.6'),
  'C07': ('exploration', 'Generated ONCE programs (4 variants, onces sharing an internal lock, nested calls, scheduling points inside the function): run count, completion flag after every return, no blocking after done.', '6.7'),
  'C08': ('exploration', 'Generated note trees with deadlines; every observation is checked against a model of causes over the recorded history, the tree state at every quiescence and at the end, expiry against the chain minimum.', '6.8'),
  'C09': ('exploration', 'Generated notify / poll / wait / new-child / free programs on a parent-child-grandchild family with a harness gate for the free precondition; exact deadlock verdicts, freed-memory tracking, final adoption check. Two open known findings (the disconnecting protocol) are excluded by history pattern and counted.', '6.9'),
- 'C10': ('exploration', 'Generated counter programs; returned values checked for linearizability against an integer, wait results against the value history, release of every waiter at zero.', '6.10'),
- 'C11': ('exploration', 'Generated nsync_wait_n calls over notes, counters, cvs and a logging probe waitable (stack and heap bookkeeping), with actors making objects ready at any point; result index vs. object state and clock, lock protocol log, leftover registrations.', '6.11'),
+ 'C10': ('exploration', 'Generated counter programs; returned values checked for linearizability against an integer (arithmetic programs with concurrent add(+1)/add(-1)/add(0)/value: exhaustive search over the orders that respect real time), wait results against the value history, release of every waiter at zero.', '6.10'),
+ 'C11': ('exploration', 'Generated nsync_wait_n calls over notes, counters, cvs and a logging probe waitable (stack and heap bookkeeping), with actors making objects ready at any point; result index vs. object state and clock, lock protocol log, leftover registrations; also monitor programs with nsync_wait_n on a cv and note-tree programs.', '6.11'),
  'C12': ('fault_enumeration', 'The real nsync_semaphore_futex.c on a modelled futex with a generated vector of injected EINTR / EAGAIN / early-ETIMEDOUT / spurious-0 returns and generated schedules at the granularity of its atomics and futex calls; token accounting.', '6.12'),
- 'C13': ('exploration', 'Arena and fiber-stack lifetime tracking: any access to a freed block or to a dead part of another thread\'s stack by nsync code is a violation; reference-count programs, and wakers racing nsync_wait_n / cancellable waits.', '6.13'),
+ 'C13': ('exploration', 'Arena and fiber-stack lifetime tracking: any access to a freed block or to a dead part of another thread\'s stack by nsync code is a violation; reference-count programs, and wakers racing nsync_wait_n / cancellable waits / nsync_counter_wait / nsync_note_wait (REF, WAITN, MON, CTR and NOTE programs).', '6.13'),
  'C14': ('exploration', 'Adversarial scheduling policy (victim runs only while a barger holds the mutex) with generated perturbations, plus random / PCT schedules; the number of times the victim goes back to sleep in one lock call is bounded by 31+2T+2.', '6.14'),
  'C15': ('exploration', 'Real libnsync.a / libnsync_cpp.a rebuilt by cmake from the working tree; exhaustive boundary grid of deadlines x 9 timed entry points x 2 libraries (C++ build also through the time_point overloads) plus rapidcheck random deadlines, one child process per case with a watchdog.', '6.15'),
  'C16': ('exploration', 'C01/C02/C04 oracles with debug-state callers added to generated LOCK/MON programs; and for frozen mutex/cv states with 0..3 queued waiters every buffer size 0..80 (exhaustive) with canaries and the output(n) vs output(1024) relation.', '6.16'),
